@@ -20,6 +20,7 @@ import (
 	"strings"
 	"time"
 
+	"go.sia.tech/core/types"
 	rhp4 "go.sia.tech/coreutils/rhp/v4"
 	"verif/harness/internal/hx"
 	"verif/harness/internal/rng"
@@ -33,6 +34,7 @@ type failure struct{ kind, detail string }
 
 type result struct {
 	rpc, scen, corr string
+	peer            types.PrivateKey // transport identity of the host side; nil: the contract's host key
 	panicked        bool
 	ok              bool
 	errStr          string
@@ -58,7 +60,11 @@ func (r *result) setErr(err error) {
 
 // do runs one exchange and turns a panic or a hang of the renter into a failure.
 func (w *world) do(r *result, handler func(net.Conn, *xchg), call func(context.Context, rhp4.TransportClient)) *xchg {
-	x, p, hung := w.exchange(handler, call)
+	peer := r.peer
+	if peer == nil {
+		peer = w.hk
+	}
+	x, p, hung := w.exchange(peer, handler, call)
 	r.x = x
 	if p != nil || hung {
 		r.panicked = true
@@ -153,7 +159,11 @@ func (w *world) catalogue(thorough bool) []tcase {
 		}
 		for _, c := range w.replenishCorrs(&sc) {
 			c := c
-			add("replenish", sc.name, c, func() *result { return w.runReplenish(&sc, c) })
+			rpc := "replenish"
+			if sc.pools {
+				rpc = "replenish-pools"
+			}
+			add(rpc, sc.name, c, func() *result { return w.runReplenish(&sc, c) })
 		}
 	}
 	for _, c := range passCorrs() {
@@ -180,6 +190,7 @@ func runC10(c *hx.Ctx) {
 		json.Unmarshal(b, &rp)
 		only, seed = rp.Replay.Case, rp.Replay.Seed
 	}
+	thoroughTier = c.Thorough
 	var cases []string
 	okBy := map[string]int{}
 	spent := map[string]time.Duration{}
